@@ -101,27 +101,28 @@ fn check_shortest_path(
     g: &G,
     src: &[usize],
     dist: &[usize],
-    mask: u64,
+    targets: &[usize],
     got: &Option<Vec<usize>>,
 ) -> R {
-    let best = (0..g.order())
-        .filter(|&v| mask >> v & 1 == 1 && dist[v] != INF)
-        .map(|v| dist[v])
+    let best = targets
+        .iter()
+        .filter(|&&v| v < g.order() && dist[v] != INF)
+        .map(|&v| dist[v])
         .min();
     match (best, got) {
         (None, None) => Ok(()),
         (None, Some(p)) => Err(mk_fail(
-            &format!("{what}: None when no reachable vertex satisfies the predicate (targets mask {mask:#b})"),
+            &format!("{what}: None when no reachable vertex satisfies the predicate (targets {targets:?})"),
             "None".into(),
             format!("Some({p:?})"),
         )),
         (Some(b), None) => Err(mk_fail(
-            &format!("{what}: Some when a reachable vertex satisfies the predicate (targets mask {mask:#b})"),
+            &format!("{what}: Some when a reachable vertex satisfies the predicate (targets {targets:?})"),
             format!("a path of length/weight {b}"),
             "None".into(),
         )),
         (Some(b), Some(p)) => {
-            let what = format!("{what} (targets mask {mask:#b})");
+            let what = format!("{what} (targets {targets:?})");
             ensure!(format!("{what}: the path is not empty"), !p.is_empty(), format!("{p:?}"));
             ensure!(
                 format!("{what}: every path element is a vertex"),
@@ -135,7 +136,7 @@ fn check_shortest_path(
             );
             ensure!(
                 format!("{what}: the path ends at a vertex satisfying the predicate"),
-                mask >> p[p.len() - 1] & 1 == 1,
+                targets.contains(&p[p.len() - 1]),
                 format!("{p:?}")
             );
             ensure!(
@@ -154,19 +155,25 @@ fn check_shortest_path(
     }
 }
 
-fn masks(order: usize, rng_salt: u64) -> Vec<u64> {
+/// target predicates as sorted vertex lists: every subset for order <= 4,
+/// otherwise single targets (all of them up to order 8, ids next to word
+/// boundaries beyond), the empty set, all vertices and a few random sets
+fn target_sets(order: usize, rng_salt: u64) -> Vec<Vec<usize>> {
     if order <= 4 {
-        (0..1u64 << order).collect()
-    } else {
-        let mut m: Vec<u64> = (0..order).map(|t| 1u64 << t).collect();
-        m.push(0);
-        m.push((1u64 << order) - 1);
-        let mut r = Rng::new(rng_salt);
-        for _ in 0..4 {
-            m.push(r.next() & ((1u64 << order) - 1));
-        }
-        m
+        return (0..1u64 << order)
+            .map(|m| (0..order).filter(|&v| m >> v & 1 == 1).collect())
+            .collect();
     }
+    let singles = if order <= 8 { (0..order).collect() } else { boundary_ids(order) };
+    let mut t: Vec<Vec<usize>> = singles.into_iter().map(|v| vec![v]).collect();
+    t.push(vec![]);
+    t.push((0..order).collect());
+    let mut r = Rng::new(rng_salt);
+    for _ in 0..4 {
+        let den = 2 + r.below(order.min(12));
+        t.push((0..order).filter(|_| r.chance(1, den)).collect());
+    }
+    t
 }
 
 fn salt(g: &G, src: &[usize]) -> u64 {
@@ -228,10 +235,10 @@ fn run_bfs<D: Dg>(c: &Trav) -> R {
         let p = BfsPred::new(&d, src.iter().copied()).predecessors();
         check_pred_tree("BfsPred::predecessors()", g, src, &dist, &p.pred)?;
         at("BfsPred::shortest_path");
-        for mask in masks(n, salt(g, src)) {
+        for t in target_sets(n, salt(g, src)) {
             let got = BfsPred::new(&d, src.iter().copied())
-                .shortest_path(|v| v < 64 && mask >> v & 1 == 1);
-            check_shortest_path("BfsPred::shortest_path", g, src, &dist, mask, &got)?;
+                .shortest_path(|v| t.binary_search(&v).is_ok());
+            check_shortest_path("BfsPred::shortest_path", g, src, &dist, &t, &got)?;
         }
         at("BfsPred::cycles");
         let cycles = BfsPred::new(&d, src.iter().copied()).cycles();
@@ -297,10 +304,10 @@ fn run_dijkstra(c: &Trav) -> R {
         let p = DijkstraPred::new(&d, src.iter().copied()).predecessors();
         check_pred_tree("DijkstraPred::predecessors()", g, src, &dist, &p.pred)?;
         at("DijkstraPred::shortest_path");
-        for mask in masks(n, salt(g, src)) {
+        for t in target_sets(n, salt(g, src)) {
             let got = DijkstraPred::new(&d, src.iter().copied())
-                .shortest_path(|v| v < 64 && mask >> v & 1 == 1);
-            check_shortest_path("DijkstraPred::shortest_path", g, src, &dist, mask, &got)?;
+                .shortest_path(|v| t.binary_search(&v).is_ok());
+            check_shortest_path("DijkstraPred::shortest_path", g, src, &dist, &t, &got)?;
         }
     }
     Ok(())
@@ -468,11 +475,70 @@ impl Case for Trav {
     }
 }
 
-/// every subset of 0..order as an ascending source list
+/// every subset of 0..order as an ascending source list; for order <= 3
+/// also every other ordering of each subset (a later source may be an
+/// out-neighbour of an earlier one, and vice versa)
 fn source_sets(order: usize) -> Vec<Vec<usize>> {
-    (0..1u64 << order)
-        .map(|m| (0..order).filter(|&v| m >> v & 1 == 1).collect())
-        .collect()
+    fn perms(v: &[usize]) -> Vec<Vec<usize>> {
+        if v.len() <= 1 {
+            return vec![v.to_vec()];
+        }
+        let mut out = Vec::new();
+        for i in 0..v.len() {
+            let mut rest = v.to_vec();
+            let x = rest.remove(i);
+            for mut p in perms(&rest) {
+                p.insert(0, x);
+                out.push(p);
+            }
+        }
+        out
+    }
+    let mut all = Vec::new();
+    for m in 0..1u64 << order {
+        let sub: Vec<usize> = (0..order).filter(|&v| m >> v & 1 == 1).collect();
+        if order <= 3 {
+            all.extend(perms(&sub));
+        } else {
+            all.push(sub);
+        }
+    }
+    all
+}
+
+/// source lists for the large structured digraphs
+fn structured_sources(n: usize) -> Vec<Vec<usize>> {
+    let mut s = vec![
+        vec![0],
+        vec![n - 1],
+        vec![n / 2],
+        // a later source is an out-neighbour of an earlier one, and the reverse
+        vec![0, 1],
+        vec![1, 0],
+        vec![0, 1, 2],
+        vec![2, 1, 0],
+        vec![0, n - 1],
+        vec![n - 1, 0],
+        vec![n / 2, 0, n - 1],
+        vec![],
+    ];
+    let b = boundary_ids(n);
+    s.push(b.clone());
+    s.push(b.iter().rev().copied().collect());
+    for w in b.windows(2) {
+        if w[1] == w[0] + 1 {
+            s.push(vec![w[0], w[1]]);
+            s.push(vec![w[1], w[0]]);
+        }
+    }
+    // distinct sources only
+    s.retain(|v| {
+        let mut t = v.clone();
+        t.sort_unstable();
+        t.dedup();
+        t.len() == v.len()
+    });
+    s
 }
 
 fn random_sources(rng: &mut Rng, order: usize) -> Vec<usize> {
@@ -487,6 +553,43 @@ fn random_sources(rng: &mut Rng, order: usize) -> Vec<usize> {
 
 const DIJKSTRA_WEIGHTS: [i64; 4] = [0, 1, 2, 7];
 const WUSIZE: &str = "AdjacencyListWeighted<usize>";
+
+/// Large structured inputs: paths, circuits, cycles, stars and a binary tree
+/// for orders around the word sizes (33, 64, 65, 70, 128, 130), in every
+/// representation (Dijkstra: AdjacencyListWeighted<usize> with a weight
+/// pattern over {0, 1, 2, 7}), with single and multiple sources.
+fn search_structured(prop: &'static str, algo: &'static str, ctx: &mut Ctx) -> Option<J> {
+    // tiny versions of the multi-source shapes first: arcs 0->1->2
+    let mut shapes: Vec<(&str, usize)> = vec![("path", 3), ("circuit", 3), ("cycle", 4), ("star", 5)];
+    for kind in STRUCTURED_KINDS {
+        for n in BOUNDARY_ORDERS {
+            shapes.push((kind, n));
+        }
+    }
+    for (kind, n) in shapes {
+        let weights: &[i64] = if algo == "dijkstra" { &DIJKSTRA_WEIGHTS } else { &[] };
+        let g = structured(kind, n, weights);
+        for sources in structured_sources(n) {
+            let reprs: &[&str] = if algo == "dijkstra" { &[WUSIZE] } else { &ALL_REPRS };
+            for repr in reprs {
+                let c = Trav {
+                    prop,
+                    algo,
+                    repr: repr.to_string(),
+                    g: g.clone(),
+                    sources: sources.clone(),
+                };
+                if let Some(f) = ctx.eval(&c) {
+                    return Some(f);
+                }
+            }
+        }
+        if ctx.expired() {
+            return None;
+        }
+    }
+    None
+}
 
 fn search_unweighted(
     prop: &'static str,
@@ -517,6 +620,11 @@ fn search_unweighted(
             if order >= 4 && ctx.expired() {
                 return None;
             }
+        }
+    }
+    if random_n > 0 {
+        if let Some(f) = search_structured(prop, algo, ctx) {
+            return Some(f);
         }
     }
     for i in 0..random_n {
@@ -564,6 +672,9 @@ fn search_dijkstra(prop: &'static str, random_n: usize, rng: &mut Rng, ctx: &mut
             return None;
         }
     }
+    if let Some(f) = search_structured(prop, "dijkstra", ctx) {
+        return Some(f);
+    }
     for i in 0..random_n {
         let order = 4 + rng.below(3);
         let g = random_g(rng, order, &DIJKSTRA_WEIGHTS);
@@ -598,7 +709,11 @@ pub fn search(prop: &str, seed: u64, ctx: &mut Ctx) -> Option<J> {
             if let Some(f) = search_dijkstra("C05", 40_000, &mut rng, ctx) {
                 return Some(f);
             }
-            // BFS half: order 4 exhaustive, then seeded random up to order 6
+            // BFS half: large structured inputs, order 4 exhaustive, then
+            // seeded random up to order 6
+            if let Some(f) = search_structured("C05", "bfs", ctx) {
+                return Some(f);
+            }
             for mask in 0..(1u64 << 12) {
                 let g = g_from_mask(4, mask);
                 for sources in source_sets(4) {
